@@ -8,6 +8,7 @@
    arange, %).  This file only assembles them into list-valued functions in the
    order the Python statements do. *)
 From Coq Require Import Reals ZArith List Bool.
+Set Warnings "-ambiguous-paths".
 From Coquelicot Require Import Coquelicot.
 From Verif Require Import lib.C20_Numpy gen.WinHelp.
 Import ListNotations.
